@@ -36,7 +36,7 @@ class Chains(Harness):
         for g in range(1, gmax + 1):
             out.append({"genes": ["s"] * g, "circ": False})
             out.append({"genes": ["s"] * g, "circ": True})
-            if g <= gmax - 1 or tier == "thorough":
+            if g <= gmax - 1:
                 out.append({"genes": ["s"] * (g - 1) + ["o"], "circ": True})
         return out
 
